@@ -75,6 +75,7 @@ type Downstream struct {
 
 	state           *streamState
 	connStatus      *connStatus
+	connGen         uint64 // このストリームのwireConnが属する接続の世代
 	eventDispatcher *eventDispatcher
 }
 
@@ -235,7 +236,7 @@ func (d *Downstream) run() error {
 
 	eg.Go(func() error {
 		d.connStatus.cond.L.Lock()
-		for !d.connStatus.IsWithoutLock(connStatusReconnecting) {
+		for !d.connStatus.IsWithoutLock(connStatusReconnecting) && d.connStatus.GenerationWithoutLock() == d.connGen {
 			select {
 			case <-ctx.Done():
 				d.connStatus.cond.L.Unlock()
